@@ -59,6 +59,9 @@ def oracle(sch, txs, io, mo):
     for k, (t, a) in enumerate(zip(txs, io)):
         tsys, _, _, ops = storefamx.parse_ops(t)
         cur = state_of(a["facts"])
+        if "panic" in a["results"]:
+            out.append(("C16:panic", "the library panicked inside the transaction", k))
+            break
         # (i) in an ordinary context no operation on a system entity of a constrained family succeeds
         if not tsys:
             for j, op in enumerate(ops):
